@@ -42,7 +42,7 @@ def _locate(body, images, hint=None):
 
 
 def abstract(w, sess, frames, t0, hs_len, res):
-    users = res["stats"].get("users") or []
+    users = [x for x in (res["stats"].get("users") or []) if x.get("auth")]
     if len(users) != 1 or users[0].get("conn") == 0 or not res["stats"].get("handshake"):
         return None
     if sess.cfg.get("qtype") in ("CNAME", "A") and (sess.cfg.get("fragsize") or 0) > 120:
